@@ -308,6 +308,15 @@ class LeanSide:
         return self
 
 
+class PropertyFailure(Exception):
+    """raised by a scenario builder when the real tool's own output already contradicts the property on a concrete input (so that the
+    scenario cannot even be set up): the run stops and reports the payload as a violation, it is not an infrastructure problem"""
+
+    def __init__(self, payload):
+        Exception.__init__(self, payload.get("what", "property failure"))
+        self.payload = payload
+
+
 class Infra(Exception):
     pass
 
@@ -526,3 +535,99 @@ def quiet():
         yield buf
     finally:
         sys.stdout, sys.stderr = so, se
+
+
+# --------------------------------------------------------------------------------------------
+# line coverage of the modelled Python functions during a run (what the generators actually reach)
+
+class LineCov:
+    """Records which source lines of /repo's Python files are executed while a check runs (sys.monitoring, every location reported
+    once), and reports it per modelled function: how much of the code the model stands for was exercised by this run's inputs.
+    Purely observational: no source hook, nothing of /repo is changed."""
+    TOOL = 3
+
+    def __init__(self):
+        self.hits = set()
+        self.on = False
+        self.root = os.path.realpath(REPO) + os.sep
+
+    def start(self):
+        mon = getattr(sys, "monitoring", None)
+        if mon is None:
+            return
+        try:
+            mon.use_tool_id(self.TOOL, "pffcov")
+        except ValueError:
+            return
+        root = self.root
+        hits = self.hits
+        cache = {}
+
+        def cb(code, line):
+            fn = code.co_filename
+            ok = cache.get(fn)
+            if ok is None:
+                ok = cache[fn] = os.path.realpath(fn).startswith(root)
+            if ok:
+                hits.add((os.path.realpath(fn), line))
+            return mon.DISABLE
+        mon.register_callback(self.TOOL, mon.events.LINE, cb)
+        mon.set_events(self.TOOL, mon.events.LINE)
+        self.on = True
+
+    def stop(self):
+        if self.on:
+            mon = sys.monitoring
+            mon.set_events(self.TOOL, 0)
+            mon.register_callback(self.TOOL, mon.events.LINE, None)
+            mon.free_tool_id(self.TOOL)
+            self.on = False
+
+    @staticmethod
+    def _code_lines(src, filename, qualname):
+        """executable lines of the function `qualname` (nested code objects included), without the `def` line and docstring-only lines"""
+        try:
+            top = compile(src, filename, "exec")
+        except SyntaxError:
+            return None
+        found = []
+
+        def walk(co, prefix):
+            for c in co.co_consts:
+                if hasattr(c, "co_code"):
+                    q = c.co_qualname
+                    if q == qualname or q.startswith(qualname + "."):
+                        found.append(c)
+                    walk(c, q)
+        walk(top, "")
+        if not found:
+            return None
+        lines = set()
+        for c in found:
+            for _s, _e, ln in c.co_lines():
+                if ln is not None and ln != c.co_firstlineno:
+                    lines.add(ln)
+        return lines
+
+    def report(self, modelled):
+        if not self.on and not self.hits:
+            return None
+        out = {}
+        tot = hit = 0
+        for rel, qual in sorted(set(modelled)):
+            path = os.path.realpath(os.path.join(REPO, rel))
+            try:
+                src = open(path, encoding="utf-8", errors="replace").read()
+            except OSError:
+                continue
+            lines = self._code_lines(src, path, qual)
+            if not lines:
+                continue
+            got = {ln for ln in lines if (path, ln) in self.hits}
+            missed = sorted(lines - got)
+            out["%s:%s" % (rel, qual)] = {"executable_lines": len(lines), "executed": len(got),
+                                          "not_executed": missed[:400]}
+            tot += len(lines)
+            hit += len(got)
+        return {"functions": out, "executable_lines": tot, "executed": hit,
+                "note": "source lines of the modelled functions executed in-process by this run's correspondence and oracle cases"}
